@@ -6,6 +6,7 @@ import (
 	"os"
 	"path/filepath"
 	"sort"
+	"sync"
 
 	"verifharness/lib"
 	"verifharness/ref"
@@ -25,8 +26,18 @@ type CorpusFile struct {
 	Data []byte
 }
 
-// Corpus returns the .fit files under testdata, sorted by path.
+var (
+	corpusOnce sync.Once
+	corpusList []CorpusFile
+)
+
+// Corpus returns the .fit files under testdata, sorted by path (cached).
 func Corpus() []CorpusFile {
+	corpusOnce.Do(func() { corpusList = readCorpus() })
+	return corpusList
+}
+
+func readCorpus() []CorpusFile {
 	var out []CorpusFile
 	filepath.Walk(filepath.Join(RepoDir(), "testdata"), func(p string, info os.FileInfo, err error) error {
 		if err != nil || info.IsDir() || filepath.Ext(p) != ".fit" {
